@@ -6,6 +6,20 @@
 
 package runtime
 
-import "github.com/cosi-project/runtime/pkg/controller/runtime/internal/reduced"
+import (
+	"github.com/cosi-project/runtime/pkg/controller/runtime/internal/reduced"
+	"github.com/cosi-project/runtime/pkg/state"
+)
+
+// verifRT is the per-runtime state of the trace hooks (empty unless built with -tags verif).
+type verifRT struct{}
 
 func (runtime *Runtime) verifBeforeTrigger(*reduced.Metadata) {}
+
+func (runtime *Runtime) verifBatch([]state.Event) {}
+
+func (runtime *Runtime) verifMap(string, dedup, string) {}
+
+func (runtime *Runtime) verifTake(*reduced.Metadata, dedup, string) {}
+
+func (runtime *Runtime) verifTriggered(*reduced.Metadata, []string) {}
